@@ -16,6 +16,7 @@ package internal
 
 import (
 	"cmp"
+	"fmt"
 	"hash/fnv"
 	"iter"
 	"maps"
@@ -343,8 +344,9 @@ func makeVaryHash(vary map[string]string) uint64 {
 	keys = slices.AppendSeq(keys, maps.Keys(vary))
 	slices.Sort(keys)
 	for _, k := range keys {
-		_, _ = h.Write([]byte(k))
-		_, _ = h.Write([]byte(vary[k]))
+		// Length-prefixed, so that the byte stream determines the (name, value)
+		// list: {"X-A": "1", "X-B": "2"} and {"X-A": "1X-B2"} must differ.
+		_, _ = fmt.Fprintf(h, "%d:%s%d:%s", len(k), k, len(vary[k]), vary[k])
 	}
 	return h.Sum64()
 }
